@@ -12,6 +12,7 @@ mod textgen;
 mod mon_c01;
 mod mon_c02;
 mod mon_c04;
+mod mon_c05;
 mod mon_c08;
 mod mon_c17;
 
@@ -112,6 +113,7 @@ fn main() {
         "C01" => mon_c01::run(&ctx, &mut rep),
         "C02" => mon_c02::run(&ctx, &mut rep),
         "C17" => mon_c17::run(&ctx, &mut rep),
+        "C05" => mon_c05::run(&ctx, &mut rep),
         "C04" => mon_c04::run(&ctx, &mut rep),
         "C08" => mon_c08::run(&ctx, &mut rep),
         other => {
